@@ -39,6 +39,16 @@ SITE = {
     "certificate": "pkg/protocol/handshake/message_certificate.go:MessageCertificate.Unmarshal",
     "new_connection_id": "pkg/protocol/handshake/message_new_connection_id.go:MessageNewConnectionID.Unmarshal",
     "key_update": "pkg/protocol/handshake/message_key_update.go:MessageKeyUpdate.Unmarshal",
+    "client_hello": "pkg/protocol/handshake/message_client_hello.go:MessageClientHello.Unmarshal",
+    "server_hello": "pkg/protocol/handshake/message_server_hello.go:MessageServerHello.Unmarshal",
+    "server_key_exchange": "pkg/protocol/handshake/message_server_key_exchange.go:MessageServerKeyExchange.Unmarshal",
+    "certificate_request": "pkg/protocol/handshake/message_certificate_request.go:MessageCertificateRequest.Unmarshal",
+    "new_session_ticket": "pkg/protocol/handshake/message_new_session_ticket.go:MessageNewSessionTicket.Unmarshal",
+    "encrypted_extensions": "pkg/protocol/handshake/message_encrypted_extensions.go:MessageEncryptedExtensions.Unmarshal",
+    "certificate13": "pkg/protocol/handshake/message_certificate_13.go:MessageCertificate13.Unmarshal",
+    "certificate_request13": "pkg/protocol/handshake/message_certificate_request_13.go:MessageCertificateRequest13.Unmarshal",
+    "handshake2": "pkg/protocol/handshake/handshake.go:Handshake.Unmarshal",
+    "ext_raw_list": "pkg/protocol/extension/raw.go:ParseList",
 }
 
 # codecs whose encodings are self-delimiting: every proper prefix of a valid encoding must be
@@ -52,7 +62,14 @@ TRUNC = {"header", "hs_header", "alert", "ccs", "ack", "rrc", "record12", "hands
 TRAIL = TRUNC - {"rrc"} | {"rrc"}
 
 
+# codec ids that Codec.C18Run.run knows; everything else is checked by the implementation-side
+# monitors only and is not sent to Coq
+MODELLED_IDS = set(range(1, 18)) | {20, 21, 22, 23}
+
+
 def site_of(c):
+    if 120 <= c["id"] < 160:
+        return "pkg/protocol/extension:%s.UnmarshalData" % c["codec"]
     return SITE.get(c["codec"], "pkg/protocol:%s" % c["codec"])
 
 
@@ -181,7 +198,8 @@ def run(chk):
     if not ok_model:
         chk.broken("model Codec/C18Run.v no longer compiles", mout)
     else:
-        cmp_cases = [c for c in cases if c["res"] != "panic"]
+        cmp_cases = [c for c in cases if c["res"] != "panic" and c["id"] in MODELLED_IDS]
+        mon_only = [c for c in cases if c["id"] not in MODELLED_IDS]
         terms = [coq_term(c) for c in cmp_cases]
         # one pass: agreement on a modelled input; the (few) others are split into "outside the
         # model" and "mismatch" by a second pass
@@ -224,8 +242,16 @@ def run(chk):
                 chk.leg_info(codec, kinds=kinds, outside_model=len(ics) - len(mod),
                              accepted=len(nontriv), rejected=len(mod) - len(nontriv),
                              value_level_fixpoint_false=sum(1 for c in nontriv if c.get("fix_val") is False))
+            per_codec = {}
+            for c in mon_only:
+                per_codec.setdefault(c["codec"], []).append(c)
+            for codec, cs in sorted(per_codec.items()):
+                chk.leg_info("monitors-only:" + codec, cases=len(cs), accepted=sum(1 for c in cs if c["res"] == "ok"),
+                             rejected=sum(1 for c in cs if c["res"] == "err"),
+                             panics=sum(1 for c in cs if c["res"] == "panic"))
             chk.cov["traces_validated_against_impl"] += len(cmp_cases) - len(unmod)
             chk.cov["outside_model"] = len(unmod)
+            chk.cov["monitors_only_cases"] = len(mon_only)
             chk.cov["panics"] = sum(1 for c in cases if c["res"] == "panic")
     if not proved:
         where, out = getattr(chk, "proof_error", ("?", ""))
